@@ -1148,6 +1148,15 @@ class PSBTIn:
                 )
             if self.tx_in.prev_index >= len(self.prev_tx.tx_outs):
                 raise ValueError("input refers to an output index that does not exist")
+            if self.prev_out:
+                utxo = self.prev_tx.tx_outs[self.tx_in.prev_index]
+                if (
+                    self.prev_out.amount != utxo.amount
+                    or self.prev_out.script_pubkey != utxo.script_pubkey
+                ):
+                    raise ValueError(
+                        "witness UTXO does not match the previous transaction's output"
+                    )
         if self.prev_out:
             # witness input
             if not (
